@@ -1,6 +1,6 @@
 """C15 — Timestamp/Duration <-> datetime/timedelta conversions.
 
-T2: coq/Model/Time.v (mirror of the code after fixes/c15-*.patch) against the live tree, on single-field
+T2: coq/Model/Time.v (mirror of the code after fixes/c15-*.patch, landed as fix commits) against the live tree, on single-field
     messages built with the public field API (bytes, len, parse, to_dict, from_dict) and on the conversion
     functions themselves; the binary64 model used for the `_pinned` functions against CPython floats.
 T3: coq/Spec/Time.v against google.protobuf (Timestamp/Duration FromDatetime, FromTimedelta, ToJsonString,
